@@ -40,6 +40,8 @@ REQUIRED = ['GOTO', 'GOSUB', 'THEN', 'ELSE', 'RESTORE', 'RUN', 'RESUME', 'ERL', 
 
 
 def check(ctx, rep):
+    from . import c13, _share
+    _share.share(ctx, rep, c13, ('pairing.renum',), 'RENUM re-keys the line dictionary consistently with the rewritten program')
     tkm = ctx.mod(TK)
     words = ctx.const(TOK, 'Tokeniser._linenum_words')
     for kw in REQUIRED:
